@@ -200,7 +200,7 @@ static void run_sparse() {
     for (auto sh : shapes) {
         int m = sh[0], n = sh[1];
         uint64_t np = 1ull << (m * n);
-        bool small = m * n <= 9;
+        bool small = m * n <= 9, big = m * n > 16;      // 4x5 / 5x4: ranges {all rows, [1,m-1), empty} only
         for (uint64_t g = 0; g < np; g += 64) {
             if (!vf::take_group()) continue;
             Batch b(*RUN);
@@ -221,9 +221,9 @@ static void run_sparse() {
                 b.add(key, [=] {
                     std::string r;
                     auto sd = make_src<double>(m, n, mask, salt);
-                    if (!(r = rt_mm_sparse<ptrdiff_t, double>(sd, true)).empty()) return r;
-                    if (!(r = rt_bin_sparse<size_t, ptrdiff_t, double>(sd, true, false)).empty()) return r;
-                    if (!(r = rt_bin_sparse<ptrdiff_t, ptrdiff_t, double>(sd, false, true)).empty()) return r;
+                    if (!(r = rt_mm_sparse<ptrdiff_t, double>(sd, !big)).empty()) return r;
+                    if (!(r = rt_bin_sparse<size_t, ptrdiff_t, double>(sd, !big, false)).empty()) return r;
+                    if (!big && !(r = rt_bin_sparse<ptrdiff_t, ptrdiff_t, double>(sd, false, true)).empty()) return r;
                     if (small) {
                         if (!(r = rt_mm_sparse<int, double>(sd, false)).empty()) return r;
                         auto sc = make_src<cd>(m, n, mask, salt);
@@ -243,7 +243,7 @@ static void run_sparse() {
                 }, [=](const bt::Outcome &o) { handle("roundtrip.sparse", key, o, vf::KS() << m << "x" << n << " pattern mask " << mask); });
             }
         }
-        vf::space(vf::KS() << "sparse round trip: all " << np << " patterns " << m << "x" << n << " x all row ranges; MatrixMarket + binary (double"
+        vf::space(vf::KS() << "sparse round trip: all " << np << " patterns " << m << "x" << n << (big ? " x row ranges {full, [1,m-1), empty}" : " x all row ranges") << "; MatrixMarket + binary (double"
                   << (small ? ", complex<double>, float, complex<float>, int, long long, char; index types ptrdiff_t and int" : "") << ")");
     }
 }
